@@ -179,3 +179,11 @@ func ValidatePtr(b *spec.Built, valPtr reflect.Value, opts ...z.ExecOption) (o *
 	}
 	return o
 }
+
+// MustNotPanic re-raises a panic that happened inside the call (for callers that guard with their own recover).
+func (o *Outcome) MustNotPanic() *Outcome {
+	if o.Panicked {
+		panic(fmt.Sprintf("%v\n%s", o.Panic, o.Stack))
+	}
+	return o
+}
